@@ -106,3 +106,29 @@ Theorem C11_haplotig_count : forall c g prefix bpt input pretext o,
         Proofs.PipelineInv.haplotig_scaffolds o = oa_scaffolds a).
 Proof. exact Proofs.PipelineInv.haplotig_count. Qed.
 Print Assumptions C11_haplotig_count.
+
+(* BREAKS AND JOINS, END TO END through [remap]: the reported number of manual
+   breaks is the number of DISTINCT input adjacencies (canonical junctions --
+   unordered pairs of facing contig ends -- between consecutive contigs of an
+   input scaffold) that occur in no scaffold of any output assembly; the reported
+   number of manual joins is the number of distinct output adjacencies that occur
+   in no input scaffold. *)
+From Tola Require Proofs.BreaksJoins.
+Theorem C11_breaks_joins : forall g prefix bpt input pretext o,
+  remap repaired g prefix bpt input pretext = Ok o ->
+  exists broken joined : list junction,
+    NoDup broken /\ NoDup joined
+    /\ (forall j, In j broken <-> Proofs.BreaksJoins.input_adjacency input j /\ ~ Proofs.BreaksJoins.output_adjacency o j)
+    /\ (forall j, In j joined <-> Proofs.BreaksJoins.output_adjacency o j /\ ~ Proofs.BreaksJoins.input_adjacency input j)
+    /\ out_breaks o = zlen broken /\ out_joins o = zlen joined.
+Proof. exact Proofs.BreaksJoins.breaks_joins_end_to_end. Qed.
+Print Assumptions C11_breaks_joins.
+
+(* "reversing a whole scaffold, in input ..., changes neither count": the set of
+   input adjacencies is the same for the input with one scaffold reversed (and
+   renamed at will) *)
+Theorem C11_input_adjacency_reversal_invariant : forall l1 l2 name name' rows j,
+  Proofs.BreaksJoins.input_adjacency (l1 ++ (name, rows) :: l2) j
+  <-> Proofs.BreaksJoins.input_adjacency (l1 ++ (name', rows_reverse rows) :: l2) j.
+Proof. exact Proofs.BreaksJoins.input_adjacency_reverse. Qed.
+Print Assumptions C11_input_adjacency_reversal_invariant.
